@@ -284,10 +284,11 @@ var c03kinds = []c03kind{
 	{"env-hit", `%env("C03_SET")%`}, {"env-miss", `%env("C03_UNSET")%`}, {"env-default", `%env("C03_UNSET", "dflt")%`},
 	{"envint-ok", `%envInt("C03_INT")%`}, {"envint-bad", `%envInt("C03_SET")%`}, {"envint-default", `%envInt("C03_UNSET", 81)%`},
 	{"todo", `%todo()%`}, {"todo-msg", `%todo("not yet")%`},
+	{"env-empty", `%env("C03_EMPTY")%`}, {"env-empty-default", `%env("C03_EMPTY", "dflt")%`}, {"envint-empty", `%envInt("C03_EMPTY", 4)%`},
 }
 
-var c03env = map[string]string{"C03_SET": "envvalue", "C03_INT": "-12", "C03_UNSET": "\x00unset"}
-var c03modelEnv = map[string]string{"C03_SET": "envvalue", "C03_INT": "-12"}
+var c03env = map[string]string{"C03_SET": "envvalue", "C03_INT": "-12", "C03_UNSET": "\x00unset", "C03_EMPTY": ""}
+var c03modelEnv = map[string]string{"C03_SET": "envvalue", "C03_INT": "-12", "C03_EMPTY": ""}
 
 func c03seqBase() *Cfg {
 	c := &Cfg{Meta: stdMeta()}
@@ -300,7 +301,7 @@ func init() {
 		ID:    "C03",
 		Level: "exploration",
 		Rule: "(1) every string of length <= 3 and every string containing '%' of length <= 5 (quick) / <= 6 (thorough) over {%, a, p, ., (, ), \", space, comma, é} as a parameter value: build verdict vs. hand-written evaluator (reject / accept / unspecified), accepted ones packed and evaluated by GetParam in a probe; " +
-			"(2) every chunk sequence of length <= 3 (quick) / <= 4 (thorough) over 22 chunk kinds (literals, %%, references to every literal type, functions ok/failing, env/envInt hit/miss/default/bad, todo) as parameter and as constructor argument; (3) the doubling corollary for every string of (1). non-trivial = contains '%' or is evaluated at run time; distinct = distinct string / sequence",
+			"(2) every chunk sequence of length <= 3 (quick) / <= 4 (thorough) over 25 chunk kinds (literals, %%, references to every literal type, functions ok/failing, env/envInt hit/miss/default/bad, todo) as parameter and as constructor argument; (3) the doubling corollary for every string of (1). non-trivial = contains '%' or is evaluated at run time; distinct = distinct string / sequence",
 		Assumptions: []string{
 			"unspecified: function-call chunks whose argument text is valid Go but not a list of string literals (identifiers would have to exist as Go symbols)",
 			"the pinned runtime's documented string cast (exporter.CastToString) is re-stated in the model for the YAML literal types",
@@ -415,14 +416,14 @@ func init() {
 					}
 				})
 			}
-			// (1b) argument texts of a registered function: every string of length <= A over {(, ), ", a, comma, space, .}
+			// (1b) argument texts of a registered function: every string of length <= A over {(, ), ", a, comma, space, ., /}
 			// between the parentheses of %a(...)%, alone and inside a multi-chunk pattern
 			A := 4
 			if !w.Env.Quick() {
 				A = 5
 			}
 			var argTexts []string
-			words([]string{"(", ")", `"`, "a", ",", " ", "."}, A, func(x string) { argTexts = append(argTexts, x) })
+			words([]string{"(", ")", `"`, "a", ",", " ", ".", "/"}, A, func(x string) { argTexts = append(argTexts, x) })
 			for i := 0; i < len(argTexts); i += 500 {
 				j := i + 500
 				if j > len(argTexts) {
@@ -461,6 +462,24 @@ func init() {
 					}
 				})
 			}
+			// (1c) user functions registered under the names of the built-in ones take precedence (meta.functions is
+			// merged after the defaults), and a function registered in a later file replaces an earlier one
+			w.Case("function-registration", func(c *C) {
+				one := &Cfg{Meta: stdMeta(), Params: []Param{{"e", `%env("K")%`}, {"i", `%envInt("K")%-%todo()%`}, {"u", `%mine("x")%`}}}
+				one.Meta.Functions = []KV{{"env", "pk.FnStr"}, {"envInt", "pk2.FnInt"}, {"todo", "pk.FnNil"}, {"mine", "pk2.FnStr"}, {"other1", "pk.FnE"}, {"other2", "pk.FnE"}}
+				a := &Cfg{Meta: &Meta{Pkg: P("gen"), Imports: []KV{{"pk", "fx/pk"}, {"pk2", "fx/pk2"}}, Functions: []KV{{"mine", "pk.FnInt"}, {"env", "pk2.FnNil"}}}}
+				b := &Cfg{Meta: &Meta{Functions: one.Meta.Functions}, Params: one.Params}
+				merged := &Cfg{Meta: stdMeta(), Params: one.Params}
+				merged.Meta.Functions = one.Meta.Functions
+				ops := []ProbeOp{op("param", "e"), op("param", "i"), op("param", "u")}
+				cases := []*BCase{
+					{ID: "functions/override-builtins", Cfg: one, Sessions: []BSession{{Ops: ops}}},
+					{ID: "functions/later-file-wins", Cfg: merged, Files: []File{{"a.yaml", a.YAML()}, {"b.yaml", b.YAML()}}, Sessions: []BSession{{Ops: ops}}},
+				}
+				outs, err := w.RunBehaviour(cases)
+				behaviourOracle(c, outs, err)
+				c.Distinct("nontrivial", c.ID)
+			})
 			// (2) chunk sequences as parameters and as constructor arguments
 			k := 3
 			if !w.Env.Quick() {
